@@ -198,21 +198,33 @@ Commit ==
    /\ CommitEffect
    /\ clean' = "commit" /\ copyOk' = TRUE
    /\ UNCHANGED failed
+\* Reload continues on state.New(roots): when that state cannot read everything the behaviour ends here
+ReadableP == \A a \in Accts : /\ (tacc'[a].code = 0 \/ tacc'[a].code \in blobs'.code)
+                              /\ (tacc'[a].to = {} \/ tacc'[a].to \in blobs'.dl)
+                              /\ ((tacc'[a].s1 = 0 /\ tacc'[a].s2 = 0) \/ <<tacc'[a].s1, tacc'[a].s2>> \in blobs'.st)
 Reload ==
    /\ Tick(Rec("Reload", 0, 0, 0, 0, 0, 0))
    /\ CommitEffect
    /\ clean' = "commit" /\ copyOk' = TRUE
-   /\ UNCHANGED failed
+   /\ failed' = ~ReadableP
 
 \* ---------------------------------------------------------------- copy
 \* accounts whose object is deep-copied (the others are read from the copied trie on demand)
 Copied == dAcc \cup oDirty
 CopyReadable == Fixed("copy") \/ \A a \in Copied : acc[a].to = {} \/ acc[a].to \in blobs.dl
 \* Copy: the behaviour continues on the original; CopySwap: on the copy (which, as coded, has lost the dirtyDlgs flags)
+\* an account whose object is not copied is read again from the copied trie and the database: data that only the original's
+\* object holds (code, storage, list not yet committed) is not seen by the copy
+ReRead(a) ==
+   IF a \in Copied THEN acc[a]
+   ELSE LET stOk == (acc[a].s1 = 0 /\ acc[a].s2 = 0) \/ <<acc[a].s1, acc[a].s2>> \in blobs.st IN
+        [acc[a] EXCEPT !.code = IF @ = 0 \/ @ \in blobs.code THEN @ ELSE 0,
+                       !.s1 = IF stOk THEN @ ELSE 0, !.s2 = IF stOk THEN @ ELSE 0]
 CopyStep(name) ==
    /\ Tick(Rec(name, 0, 0, 0, 0, 0, 0))
-   /\ copyOk' = CopyReadable
+   /\ copyOk' = (CopyReadable /\ \A a \in Accts : ReRead(a) = acc[a])
    /\ failed' = (name = "CopySwap" /\ ~CopyReadable)      \* nothing sensible can follow on an unreadable copy
+   /\ acc' = IF name = "CopySwap" THEN [a \in Accts |-> ReRead(a)] ELSE acc
    /\ dDl' = IF name = "CopySwap" /\ ~Fixed("copy") THEN dDl \ Copied ELSE dDl
    \* the copy starts with an empty journal: as coded, accounts touched in the open transaction of the original are written by
    \* the copy's next root (they are pending) but never examined by its Finalise (an emptied account is not dropped)
@@ -221,9 +233,8 @@ CopyStep(name) ==
    \* as coded: objects already pending (finalised, hence also dirty) are copied by the pending loop and then skipped by the
    \* dirty loop, so they are not in the copy's stateObjectsDirty
    /\ nod' = IF name = "CopySwap" /\ ~Fixed("copydirty") THEN nod \cup (dAcc \ jd) ELSE nod
-   /\ UNCHANGED zomb
    /\ oDirty' = IF name = "CopySwap" /\ ~Fixed("copydirty") THEN oDirty \ (dAcc \ jd) ELSE oDirty
-   /\ UNCHANGED <<live, tries, blobs, dAcc, dCode, dVal, dRec, dRel, clean>>
+   /\ UNCHANGED <<val, wq, rec, rel, tries, blobs, dAcc, dCode, dVal, dRec, dRel, clean, zomb>>
 
 \* ---------------------------------------------------------------- next-state relations
 Bounded == /\ \A a \in Accts : acc[a].bal <= 6
